@@ -518,6 +518,64 @@ func TestC11(t *testing.T) {
 		run.Exhaustive(fmt.Sprintf("every filter of the %d-filter set subscribed once against retained messages on a, a/b, a/b/c, a/", len(filters)))
 	}
 
+	// bounded-exhaustive retained-set histories: every sequence of up to 3
+	// (thorough: 4) operations {retain t, clear t} over the 5 topics, then one
+	// SUBSCRIBE to '#' whose replay must equal the model (catches retained
+	// entries that vanish or survive through tree restructuring)
+	{
+		type rop struct {
+			t     string
+			clear bool
+		}
+		var alphabet []rop
+		for _, tp := range topics {
+			alphabet = append(alphabet, rop{tp, false}, rop{tp, true})
+		}
+		maxLen := 3
+		if ev.Thorough() {
+			maxLen = 4
+		}
+		_, shards := ev.Shard()
+		idx, count := 0, 0
+		var rec func(seq []rop) bool
+		rec = func(seq []rop) bool {
+			if len(seq) > 0 {
+				idx++
+				if idx%shards == shard {
+					c := &Case{Clients: 2, Ops: []Op{{Kind: "connect", Client: 0, Clean: true}, {Kind: "connect", Client: 1, Clean: true}}}
+					for i, o := range seq {
+						c.Ops = append(c.Ops, Op{Kind: "publish", Client: 0, Msg: &Msg{Topic: o.t, QoS: i % 3, Retain: true, Empty: o.clear}})
+					}
+					c.Ops = append(c.Ops, Op{Kind: "subscribe", Client: 1, Subs: []Sub{{"#", 2}}})
+					st := &stats{}
+					run.Eval(1)
+					count++
+					v := runCase(c, st)
+					if st.nontrivial || len(seq) >= 2 {
+						run.NonTrivialJSON(c)
+					}
+					if v != nil {
+						run.Violation("exhaustive:"+v.sig, v.msg, c)
+						return false
+					}
+				}
+			}
+			if len(seq) == maxLen {
+				return true
+			}
+			for _, o := range alphabet {
+				if !rec(append(append([]rop{}, seq...), o)) {
+					return false
+				}
+			}
+			return true
+		}
+		if rec(nil) {
+			run.Exhaustive(fmt.Sprintf("all %d sequences of 1..%d operations {retain t, clear t} over topics %v (this shard: %d), each followed by SUBSCRIBE '#'", idx, maxLen, topics, count))
+		}
+		run.ClassN("exhaustive-retained-histories", count)
+	}
+
 	subs := 0
 	run.Rapid(t, "histories", ev.Pick(500, 50000), func(rt *rapid.T) {
 		c := genCase(rt)
